@@ -483,7 +483,40 @@ def user_view(mc, probe_paths=()):
         inn = p in mc
         g = mc.get(p)
         probes.append((p, bool(inn), g is not None))
-    return {"visit": a, "rec": b, "items": c, "names": tuple(sorted(names)), "groups": tuple(sorted(per_group)), "probes": tuple(probes)}
+    return {"visit": a, "rec": b, "items": c, "names": tuple(sorted(names)), "groups": tuple(sorted(per_group)), "probes": tuple(probes), "nav": nav_view(mc)}
+
+
+def nav_view(f):
+    """What navigation and early-exit walks answer: works on a container and on a plain h5py tree alike.
+
+    * for every node: name of .parent and the listing obtained through .parent
+    * visit / visititems with a callback whose result is falsy but not None: result handed back, number of calls
+    """
+    parents = []
+
+    def rec(g, path):
+        for k in sorted(g.keys()):
+            o = g[k]
+            par = o.parent
+            parents.append((path.rstrip("/") + "/" + k, par.name, tuple(sorted(par.keys()))))
+            if h5ops.is_group(o):
+                rec(o, path.rstrip("/") + "/" + k)
+
+    rec(f, "/")
+    early = []
+    for ret in (0, False, ""):
+        calls = []
+
+        def cb(n, o=None, ret=ret, calls=calls):
+            calls.append(n)
+            return ret
+
+        r1 = f.visit(cb)
+        n1 = len(calls)
+        del calls[:]
+        r2 = f.visititems(cb)
+        early.append((repr(r1), n1, repr(r2), len(calls)))
+    return (tuple(parents), tuple(early))
 
 
 # ----------------------------------------------------------------------------------- generic expansion
